@@ -96,4 +96,11 @@ CHECKS["C11"] = {
          "WaitReturnsOwnResult, StatusAgrees, ReleasedAfterEnd, Restartable, NoHang).",
  "note": LC_NOTE + " Known open finding F13 (user Start racing a recovery restart).",
  "technique": "TLA+ model checking (TLC) + TLC-generated schedules replayed on the real services + TLC trace validation"}
+CHECKS["C12"] = {
+ "text": "A forced stop is inserted at every step index of 5 base scripts per engine (destinations / DLQ / processors gated "
+         "= unresponsive at that instant, during a graceful stop, lazy persister, concurrently with Start) and into "
+         "seeded random scenarios, each followed by a restart check; TLC validates every trace: ForceIsFatalNoRestart, "
+         "NoHang, Restartable, RestartFromDurable, ReleasedAfterEnd (LifecycleTrace.tla) and NoEarlyAck, AckPrefix, "
+         "HandledBeforeStored (DataPathTrace.tla). Design level: Lifecycle.tla.",
+ "note": LC_NOTE, "technique": "TLC trace validation of real-service traces with the force stop enumerated over all script positions"}
 NOT_APPLICABLE = {}
